@@ -1305,7 +1305,7 @@ func TestVF_C12_Machine(t *testing.T) {
 				continue
 			}
 			if v := res.viol[p]; len(v) > 0 {
-				rt.Fatalf("%s violated:\n%s\ntrace:\n%s", p, strings.Join(v, "\n"), strings.Join(res.trace, "\n"))
+				rt.Fatalf("%s violated (details after the trace)\ntrace:\n%s\n%s violated:\n%s", p, strings.Join(res.trace, "\n"), p, strings.Join(v, "\n"))
 			}
 		}
 	})
